@@ -7,7 +7,7 @@
 // statement: "remove the points of matching series with min ≤ t ≤ max; a name is listed iff the model still holds
 // data for it".
 //
-// Part 2 (schedules, sched_test.go): the vsched engine explores the interleavings of a bucket delete with a
+// Part 2 (schedules, second half of this file): the vsched engine explores the interleavings of a bucket delete with a
 // concurrent writer on the same real stack.
 //
 // What the oracle demands (nothing more than the statement):
@@ -30,14 +30,17 @@ import (
 	"fmt"
 	"math"
 	"os"
+	"runtime"
 	"sort"
 	"strconv"
 	"strings"
 	"testing"
+	"testing/synctest"
 	"time"
 
 	"github.com/influxdata/influxdb/v2/influxql/query"
 	"github.com/influxdata/influxdb/v2/models"
+	"github.com/influxdata/influxdb/v2/pkg/verifrt/vrt"
 	"github.com/influxdata/influxdb/v2/storage/reads/datatypes"
 	"github.com/influxdata/influxdb/v2/tsdb/cursors"
 	"github.com/influxdata/influxql"
@@ -257,10 +260,8 @@ func delRanges(thorough bool) []rng {
 	if thorough {
 		out = append(out,
 			rng{"slot", t[2], t[2]},
-			rng{"slot", t[0], t[0]},
 			rng{"one-shard", t[2], t[3]},
 			rng{"open-end", t[2], models.MaxNanoTime},
-			rng{"open-start", models.MinNanoTime, t[1]},
 			rng{"inverted", t[2], t[1]},
 		)
 	}
@@ -271,7 +272,7 @@ func delPreds(thorough bool) []*P {
 	m := func(v string) *P { return eq("_measurement", v) }
 	out := []*P{nil, m("m0"), eq("a", "x"), eq("b", "z"), and(m("m0"), eq("a", "y")), and(m("m1"), eq("a", "x")), m("m1"), ne("a", "x")}
 	if thorough {
-		out = append(out, eq("a", "y"), and(m("m0"), eq("a", "x")), and(m("m1"), eq("b", "z")), and(eq("a", "x"), eq("b", "z")),
+		out = append(out, eq("a", "y"), and(m("m0"), eq("a", "x")), and(eq("a", "x"), eq("b", "z")),
 			m("mz"), and(m("m0"), eq("a", "q")), ne("_measurement", "m0"), ne("_measurement", "m1"), and(m("m1"), ne("a", "x")))
 	}
 	return out
@@ -662,6 +663,11 @@ func verify(f *mini.Fixture, b mini.Bucket, md *model) (probs []problem) {
 		checkRead("ReadFilter("+sr.name+")", ss, md, sr.sh, &probs)
 	}
 
+	if len(probs) > 0 {
+		// the stored data itself differs from the model: the metadata would only echo that difference
+		return
+	}
+
 	// ---- whole-bucket metadata: listed ⇔ data
 	live := md.liveSeries(-1)
 	want := listingOf(live)
@@ -871,8 +877,8 @@ type stepResult struct {
 	err      error
 }
 
-// runCase executes the history; after every op the bucket is verified (every step is judged; only an error or a
-// panic of an operation ends the history early).
+// runCase executes the history; after every op the bucket is verified (every step is judged; an error or panic of an
+// operation, or stored data that differs from the model, ends the history early).
 func runCase(cs Case) (steps []stepResult, herr error) {
 	f, b, err := load(cs.DS)
 	if err != nil {
@@ -909,8 +915,12 @@ func runCase(cs Case) (steps []stepResult, herr error) {
 		sr.dropped = lb - len(md.liveSeries(-1))
 		sr.mdropped = mb - len(listingOf(md.liveSeries(-1)).meas)
 		steps = append(steps, sr)
-		if p || sr.err != nil {
-			break // the model and the store may now disagree about what was applied
+		diverged := false
+		for _, pr := range sr.probs {
+			diverged = diverged || pr.api == "" // a read clause: the stored data differs from the model
+		}
+		if p || sr.err != nil || diverged {
+			break // the model and the store now disagree about what is stored
 		}
 	}
 	return steps, nil
@@ -1009,10 +1019,12 @@ func historyCases(thorough bool, visit func(cs Case)) {
 			modes = allModes
 		case thorough:
 			modes = []string{allModes[i%3]}
-		case bothOrAbsent(p) && present(p) >= 3:
-			modes = []string{"mixed", "tsm"}
+		case bothOrAbsent(p) && present(p) == 4:
+			modes = allModes
+		case bothOrAbsent(p) && present(p) == 3:
+			modes = []string{"mixed"}
 		case fmt.Sprint(p) == "[1 3 2 3]" || fmt.Sprint(p) == "[3 2 1 1]":
-			modes = []string{"mixed", "cache"}
+			modes = []string{"mixed"}
 		}
 		for _, mode := range modes {
 			ds := Dataset{Cells: cellsOf(p), Mode: mode}
@@ -1033,7 +1045,7 @@ func historyCases(thorough bool, visit func(cs Case)) {
 	if thorough {
 		rs = append(rs, rng{"one-shard", t[2], t[3]}, rng{"slot", t[0], t[0]})
 		ps = append(ps, eq("b", "z"))
-		mids = append(mids, []Op{{Kind: "rewrite"}, {Kind: "snapshot"}}, []Op{{Kind: "snapshot"}})
+		mids = append(mids, []Op{{Kind: "rewrite"}, {Kind: "snapshot"}})
 		modes = allModes
 	}
 	for _, r := range rs {
@@ -1093,7 +1105,678 @@ func replayHistory(raw json.RawMessage) (bool, string) {
 	return bad, sb.String()
 }
 
-const quickBudgetS, thoroughBudgetS = 75, 1300
+// =========================================================================================================
+// PART 2: schedules
+// =========================================================================================================
+//
+// A bucket delete (storage.Engine.DeleteBucketRangePredicate → tsdb.Store.DeleteSeriesWithPredicate
+// → epochTracker/guard → Shard → tsm1.Engine.DeleteSeriesRange → tsi1 / series file) runs concurrently with one writer
+// (tsdb.Store.WriteToShard – the call coordinator.PointsWriter makes per shard – → epochTracker.StartWrite / guard.Matches /
+// guard.Wait → Shard.WritePoints → index + cache + WAL) on the real `mini` stack inside a synctest bubble. Every file of
+// tsdb, tsm1 and tsi1 that uses sync / sync/atomic is compiled against the modelled primitives (shim.json); the vsched
+// engine executes EVERY schedule with ≤ B deviations from the default schedule, branching at the synchronisation
+// operations of Store, epochTracker, guard, Shard, tsm1.Engine and tsm1.Cache.
+var level = "model_checking"
+
+// Scenario of part 2. All data lives in the first shard group. Stored before the threads start:
+//
+//	s0 = m0,a=x      f0 @ B+10 (and @ B+30 when S0Pts == "two")
+//	s1 = m0,a=y,b=z  f0 @ B+10
+//
+// The delete always has the predicate `_measurement="m0" AND a="x"` (matches s0 and the new series m0,a=x,c=n, never s1)
+// and the range Range = "lo" [B, B+10] or "all" [MinNanoTime, MaxNanoTime].
+// Writer (one point, field f0, value 99):
+//
+//	other-series     s1 @ B+5            in the time range, series does not match        → does not conflict
+//	match-out        s0 @ B+20           matching series, outside the range (lo only)     → does not conflict
+//	match-in         s0 @ B+5            matching series inside the range                  → conflicts: either order
+//	new-match-in     m0,a=x,c=n @ B+5    matching series that does not exist yet           → conflicts: either order
+type Scenario struct {
+	Layout string `json:"layout"` // cache | tsm
+	S0Pts  string `json:"s0_points"`
+	Range  string `json:"range"`
+	Writer string `json:"writer"`
+}
+
+func (s Scenario) String() string {
+	return fmt.Sprintf("layout=%s s0=%s-point(s): delete(m0 AND a=x, %s) || write(%s)", s.Layout, s.S0Pts, s.Range, s.Writer)
+}
+
+type SCase struct {
+	Scenario Scenario `json:"scenario"`
+	Choices  []int    `json:"schedule"`
+	Sig      string   `json:"expect_signature,omitempty"`
+	Trace    []string `json:"trace,omitempty"`
+}
+
+const (
+	B      = mini.Base
+	wVal   = 99.0
+	sNewID = "m0,a=x,c=n"
+)
+
+type sresult struct {
+	verdicts []string // "sig|msg" ("harness|..." = machinery problem)
+	outcome  string
+	waited   bool
+}
+
+func (s Scenario) delRange() (int64, int64) {
+	if s.Range == "lo" {
+		return B, B + 10
+	}
+	return models.MinNanoTime, models.MaxNanoTime
+}
+
+func (s Scenario) writerPoint() (key string, tags []mini.Tag, t int64) {
+	switch s.Writer {
+	case "other-series":
+		return "m0,a=y,b=z", mini.T("a", "y", "b", "z"), B + 5
+	case "match-out":
+		return "m0,a=x", mini.T("a", "x"), B + 20
+	case "match-in":
+		return "m0,a=x", mini.T("a", "x"), B + 5
+	default:
+		return sNewID, mini.T("a", "x", "c", "n"), B + 5
+	}
+}
+
+func (s Scenario) conflicts() bool { return s.Writer == "match-in" || s.Writer == "new-match-in" }
+
+// state: series key -> t -> value (field f0 only)
+type sstate map[string]map[int64]float64
+
+func (st sstate) clone() sstate {
+	out := sstate{}
+	for k, m := range st {
+		out[k] = map[int64]float64{}
+		for t, v := range m {
+			out[k][t] = v
+		}
+	}
+	return out
+}
+
+func (st sstate) String() string {
+	var parts []string
+	for _, k := range []string{"m0,a=x", sNewID, "m0,a=y,b=z"} {
+		m, ok := st[k]
+		if !ok {
+			continue
+		}
+		var ps []string
+		for _, t := range []int64{B + 5, B + 10, B + 20, B + 30, B + 40} {
+			if v, ok := m[t]; ok {
+				ps = append(ps, fmt.Sprintf("B+%d=%g", t-B, v))
+			}
+		}
+		parts = append(parts, k+"["+strings.Join(ps, " ")+"]")
+	}
+	return strings.Join(parts, " ")
+}
+
+func (s Scenario) initial() sstate {
+	st := sstate{"m0,a=x": {B + 10: 1}, "m0,a=y,b=z": {B + 10: 2}}
+	if s.S0Pts == "two" {
+		st["m0,a=x"][B+30] = 3
+	}
+	return st
+}
+
+func applyDelete(st sstate, s Scenario) sstate {
+	out := st.clone()
+	min, max := s.delRange()
+	for _, k := range []string{"m0,a=x", sNewID} {
+		for t := range out[k] {
+			if t >= min && t <= max {
+				delete(out[k], t)
+			}
+		}
+	}
+	return out
+}
+
+func applyWrite(st sstate, s Scenario) sstate {
+	out := st.clone()
+	k, _, t := s.writerPoint()
+	if out[k] == nil {
+		out[k] = map[int64]float64{}
+	}
+	out[k][t] = wVal
+	return out
+}
+
+// observe reads the bucket back: data per series (field f0) and the series-level listings.
+type sobs struct {
+	data     sstate
+	listed   map[string]bool // series listed by SHOW SERIES
+	card     int64
+	tvSeries map[string]bool // "m|a=v" of Store.TagValues with a WHERE filter (walks the series)
+	meas     map[string]bool
+	err      string
+}
+
+func observe(f *mini.Fixture, b mini.Bucket) (o sobs) {
+	o.data, o.listed, o.tvSeries, o.meas = sstate{}, map[string]bool{}, map[string]bool{}, map[string]bool{}
+	ss, err := f.ReadFilter(b, models.MinNanoTime, models.MaxNanoTime, nil)
+	if err != nil {
+		o.err = "ReadFilter: " + err.Error()
+		return
+	}
+	for _, s := range ss {
+		if len(s.Points) == 0 {
+			continue
+		}
+		key := s.Tag("_measurement")
+		for _, t := range s.Tags {
+			if t.K != "_measurement" && t.K != "_field" {
+				key += "," + t.K + "=" + t.V
+			}
+		}
+		if s.Tag("_field") != "f0" {
+			o.err = "unexpected field " + s.Tag("_field")
+			return
+		}
+		if o.data[key] == nil {
+			o.data[key] = map[int64]float64{}
+		}
+		for _, p := range s.Points {
+			v, _ := p.V.(float64)
+			if _, dup := o.data[key][p.T]; dup {
+				o.err = fmt.Sprintf("series %s returns t=B+%d twice", key, p.T-B)
+				return
+			}
+			o.data[key][p.T] = v
+		}
+	}
+	ctx := context.Background()
+	rs, err := f.InfluxQL(b, "SHOW SERIES")
+	if err != nil || len(rs) != 1 || rs[0].Err != "" {
+		o.err = fmt.Sprintf("SHOW SERIES: %v %+v", err, rs)
+		return
+	}
+	for _, row := range rs[0].Rows {
+		for _, v := range row.Values {
+			if len(v) > 0 {
+				o.listed[fmt.Sprint(v[0])] = true
+			}
+		}
+	}
+	if o.card, err = f.TSDB.SeriesCardinality(ctx, b.DBName()); err != nil {
+		o.err = "SeriesCardinality: " + err.Error()
+		return
+	}
+	names, err := f.TSDB.MeasurementNames(ctx, nil, b.DBName(), nil)
+	if err != nil {
+		o.err = "MeasurementNames: " + err.Error()
+		return
+	}
+	for _, n := range names {
+		o.meas[string(n)] = true
+	}
+	return
+}
+
+// judgeFinal compares the observation with the allowed final states.
+func judgeFinal(sc Scenario, o sobs, allowed []sstate, add func(sig, msg string)) {
+	if o.err != "" {
+		add("read-error", o.err)
+		return
+	}
+	got := o.data.String()
+	okData := false
+	var want []string
+	var final sstate
+	for _, a := range allowed {
+		// drop empty series from the expectation
+		w := a.clone()
+		for k, m := range w {
+			if len(m) == 0 {
+				delete(w, k)
+			}
+		}
+		want = append(want, "{"+w.String()+"}")
+		if w.String() == got {
+			okData, final = true, w
+		}
+	}
+	wk, _, wt := sc.writerPoint()
+	if !okData {
+		clause := "final-data-wrong"
+		// classify the most telling difference
+		min, max := sc.delRange()
+		init := sc.initial()
+		for _, k := range []string{"m0,a=x"} {
+			for t, v := range init[k] {
+				if gv, ok := o.data[k][t]; ok && gv == v && t >= min && t <= max {
+					clause = "deleted-point-readable"
+				}
+			}
+		}
+		if clause == "final-data-wrong" {
+			if _, ok := o.data[wk][wt]; !ok && !sc.conflicts() {
+				clause = "nonconflicting-write-lost"
+			} else if _, ok := o.data[wk][wt]; !ok {
+				clause = "write-after-delete-lost"
+			} else {
+				clause = "surviving-point-missing"
+			}
+		}
+		add(clause, fmt.Sprintf("after delete||write the bucket reads {%s}; the statement allows %s", got, strings.Join(want, " or ")))
+		return
+	}
+	// data and index agree: a series is listed iff it has data
+	for _, k := range []string{"m0,a=x", sNewID, "m0,a=y,b=z"} {
+		has := len(final[k]) > 0
+		if has && !o.listed[k] {
+			add("series-with-data-not-listed", fmt.Sprintf("series %s has points {%s} but SHOW SERIES lists %s", k, got, setStr(o.listed)))
+		}
+		if !has && o.listed[k] {
+			add("series-listed-without-data", fmt.Sprintf("series %s has no point left {%s} but SHOW SERIES lists %s", k, got, setStr(o.listed)))
+		}
+	}
+	if int(o.card) != len(final) {
+		cl := "series-listed-without-data"
+		if int(o.card) < len(final) {
+			cl = "series-with-data-not-listed"
+		}
+		add(cl, fmt.Sprintf("Store.SeriesCardinality = %d but %d series have points {%s}", o.card, len(final), got))
+	}
+	if !o.meas["m0"] || len(o.meas) != 1 {
+		add("measurement-listing-wrong", fmt.Sprintf("Store.MeasurementNames = %s, data {%s}", setStr(o.meas), got))
+	}
+}
+
+// branchHere selects the points at which schedules branch: the synchronisation operations of Store, epochTracker,
+// guard, Shard, tsm1.Engine and tsm1.Cache (and the harness steps). The pure loads of IsIdle / Cache.Size / Cache.init are passed
+// silently, like every lock of the other files (all are modelled: a contended one still disables the thread).
+func branchHere(kind vrt.OpKind, label string) bool {
+	if kind == vrt.OpHook {
+		return true
+	}
+	for _, s := range []string{"IsIdle", "(*Cache).Size", "(*Cache).init"} {
+		if strings.Contains(label, s) {
+			return false
+		}
+	}
+	for _, s := range []string{"tsdb.(*Store)", "(*epochTracker)", "(*epochDeleteState)", "(*epochWaiter)", "(*guard)", "tsdb.(*Shard)", "tsm1.(*Engine)", "tsm1.(*Cache)", "sync.(*Cond)"} {
+		if strings.Contains(label, s) {
+			return true
+		}
+	}
+	return false
+}
+
+var schedDebug = os.Getenv("C17_SCHED_DEBUG") != ""
+
+func runScenario(t *testing.T, sc Scenario, prefix []int) (*vrt.Result, sresult) {
+	var res sresult
+	add := func(sig, msg string) { res.verdicts = append(res.verdicts, sig+"|"+msg) }
+	h := &vrt.Harness{Name: sc.String(), Filter: branchHere, DeviationCost: false, Body: func(x *vrt.Exec) {
+		f, err := mini.Open(mini.Options{})
+		if err != nil {
+			add("harness", "open: "+err.Error())
+			return
+		}
+		closed := false
+		closeF := func() {
+			if !closed {
+				closed = true
+				if err := f.Close(); err != nil {
+					add("harness", "close: "+err.Error())
+				}
+			}
+		}
+		defer closeF()
+		b, err := f.CreateBucket("db0", 0)
+		if err != nil {
+			add("harness", "bucket: "+err.Error())
+			return
+		}
+		pts := []mini.Point{
+			{M: "m0", Tags: mini.T("a", "x"), Fields: map[string]any{"f0": 1.0}, T: B + 10},
+			{M: "m0", Tags: mini.T("a", "y", "b", "z"), Fields: map[string]any{"f0": 2.0}, T: B + 10},
+		}
+		if sc.S0Pts == "two" {
+			pts = append(pts, mini.Point{M: "m0", Tags: mini.T("a", "x"), Fields: map[string]any{"f0": 3.0}, T: B + 30})
+		}
+		if err := f.Write(b, pts); err != nil {
+			add("harness", "write: "+err.Error())
+			return
+		}
+		if sc.Layout == "tsm" {
+			if err := f.SnapshotAll(); err != nil {
+				add("harness", "snapshot: "+err.Error())
+				return
+			}
+		}
+		shards := f.ShardIDs(b)
+		if len(shards) != 1 {
+			add("harness", fmt.Sprintf("expected one shard, got %v", shards))
+			return
+		}
+		_, wtags, wt := sc.writerPoint()
+		tm := map[string]string{}
+		for _, tg := range wtags {
+			tm[tg.K] = tg.V
+		}
+		wp, err := models.NewPoint("m0", models.NewTags(tm), models.Fields{"f0": wVal}, time.Unix(0, wt))
+		if err != nil {
+			add("harness", "point: "+err.Error())
+			return
+		}
+		min, max := sc.delRange()
+		// let every goroutine of the fixture build finish or block durably (e.g. the WAL's fsync goroutine outlives the
+		// write it served for a moment): otherwise whether it is adopted as a thread depends on timing
+		synctest.Wait()
+		ev := 0
+		var delCall, delRet, wCall, wRet int
+		var delErr, wErr error
+		x.Go("delete", func() {
+			vrt.Hook("call:delete")
+			ev++
+			delCall = ev
+			delErr = f.Delete(b, min, max, `_measurement="m0" AND a="x"`)
+			ev++
+			delRet = ev
+		})
+		x.Go("write", func() {
+			vrt.Hook("call:write")
+			ev++
+			wCall = ev
+			wErr = f.TSDB.WriteToShard(context.Background(), shards[0], []models.Point{wp})
+			ev++
+			wRet = ev
+		})
+		x.S.MaxSteps = 50000
+		x.Run()
+		dead, capHit := x.S.Deadlock, x.S.StepCap
+		blocked := strings.Join(x.S.Blocked, "; ")
+		// did the writer wait on the delete's guard? (it parked in sync.Cond.Wait called from guard.Wait: the wake-up
+		// re-locks the guard's mutex, which is the only writer-thread step labelled with sync.(*Cond).Wait)
+		delDone := -1
+		for i, st := range x.S.Steps {
+			if st.Thread == 1 && strings.Contains(st.Label, "sync.(*Cond).Wait") {
+				res.waited = true
+			}
+			if st.Thread == 0 && delDone < 0 && strings.Contains(st.Label, "(*epochWaiter).Done") {
+				delDone = i
+			}
+		}
+		if dead {
+			// a writer parked in guard.Wait when nobody can wake it up is also "waiting"
+			for _, bl := range x.S.Blocked {
+				if strings.HasPrefix(bl, "write(") {
+					res.waited = true
+				}
+			}
+		}
+		x.S.Drain()
+		if dead {
+			add("deadlock", blocked)
+		}
+		if capHit {
+			add("harness", "step cap")
+		}
+		if dead || capHit {
+			return
+		}
+		if delErr != nil {
+			add("delete-error", delErr.Error())
+		}
+		if wErr != nil {
+			add("write-error", wErr.Error())
+		}
+		if delErr != nil || wErr != nil {
+			return
+		}
+		init := sc.initial()
+		var allowed []sstate
+		switch {
+		case !sc.conflicts():
+			allowed = []sstate{applyWrite(applyDelete(init, sc), sc)} // the operations commute
+		case wRet < delCall: // the write returned before the delete was called
+			allowed = []sstate{applyDelete(applyWrite(init, sc), sc)}
+		case wCall > delRet: // the write was called after the delete returned
+			allowed = []sstate{applyWrite(applyDelete(init, sc), sc)}
+		default:
+			allowed = []sstate{applyDelete(applyWrite(init, sc), sc), applyWrite(applyDelete(init, sc), sc)}
+		}
+		if !sc.conflicts() && res.waited {
+			add("nonconflicting-write-blocked", "the writer ("+sc.Writer+") parked in guard.Wait on the guard installed by the running delete (tsdb/store.go: WaitDelete(newGuard(min, max, nil, nil)) – the guard only knows the time range)")
+		}
+		o := observe(f, b)
+		nv := len(res.verdicts)
+		judgeFinal(sc, o, allowed, add)
+		if len(res.verdicts) == nv {
+			// data and index agree: nothing may be stored that the index does not know. Probe: one more point is
+			// written (afterwards, sequentially) to the writer's series at B+40 – outside the range "lo", after the
+			// delete "all" – which re-creates the series in the index if it was dropped; the bucket must then read
+			// exactly as before plus that point. A point that was invisible and now shows up was stored without its
+			// series being indexed.
+			wk, wtags, _ := sc.writerPoint()
+			if err := f.Write(b, []mini.Point{{M: "m0", Tags: wtags, Fields: map[string]any{"f0": 7.0}, T: B + 40}}); err != nil {
+				add("probe-write-error", err.Error())
+			} else {
+				want := o.data.clone()
+				if want[wk] == nil {
+					want[wk] = map[int64]float64{}
+				}
+				want[wk][B+40] = 7
+				o2 := observe(f, b)
+				if o2.err != "" {
+					add("read-error", o2.err)
+				} else if o2.data.String() != want.String() {
+					add("hidden-data-resurfaces", fmt.Sprintf("after delete||write the bucket read {%s}; after one more (sequential) write of %s @ B+40 it reads {%s} instead of {%s}: a point was stored for a series the index did not list", o.data.String(), wk, o2.data.String(), want.String()))
+				}
+			}
+		}
+		order := "overlap"
+		if wRet < delCall {
+			order = "write-first"
+		} else if wCall > delRet {
+			order = "delete-first"
+		}
+		res.outcome = fmt.Sprintf("%s/%s/waited=%v/final={%s}", sc.Writer, order, res.waited, o.data.String())
+		x.Outcome = res.outcome
+		closeF()
+	}}
+	// one P: goroutines woken between two points run one after the other, in a reproducible order
+	defer runtime.GOMAXPROCS(runtime.GOMAXPROCS(1))
+	r := vrt.RunOnce(t, h, prefix)
+	if schedDebug && os.Getenv("C17_SCHED_DEBUG") == "steps" {
+		for i, s := range r.Steps {
+			fmt.Fprintf(os.Stderr, "%4d T%d %-70s en=%v c=%d\n", i, s.Thread, s.Label, s.Enabled, s.Choice)
+		}
+		fmt.Fprintf(os.Stderr, "names=%v outcome=%s verdicts=%v diverged=%q\n", r.Names, res.outcome, res.verdicts, r.Diverged)
+	}
+	return r, res
+}
+
+func scenarios(thorough bool) []Scenario {
+	var out []Scenario
+	for _, lay := range []string{"cache", "tsm"} {
+		for _, n := range []string{"one", "two"} {
+			for _, rg := range []string{"lo", "all"} {
+				for _, w := range []string{"other-series", "match-out", "match-in", "new-match-in"} {
+					if w == "match-out" && rg == "all" {
+						continue // nothing is outside the range
+					}
+					if !thorough {
+						keep := lay == "cache" && n == "one" ||
+							lay == "tsm" && n == "one" && rg == "lo" && (w == "match-out" || w == "match-in") ||
+							lay == "cache" && n == "two" && rg == "lo" && (w == "other-series" || w == "match-in")
+						if !keep {
+							continue
+						}
+					}
+					out = append(out, Scenario{lay, n, rg, w})
+				}
+			}
+		}
+	}
+	return out
+}
+
+// exploreScenario: DFS over choice prefixes with ≤ bound deviations. The root execution is run by every shard (it is
+// needed to enumerate the children) and visited by shard 0; the subtree of the i-th child of the root belongs to
+// shard (offset+i) mod n.
+func exploreScenario(t *testing.T, sc Scenario, bound, shard, nshards, offset int, stop func() bool, visit func(*vrt.Result, sresult)) (st vrt.Stats) {
+	st = vrt.Stats{Bound: bound, Complete: true}
+	var rec func(prefix []int, level int, mine bool)
+	child := 0
+	rec = func(prefix []int, level int, mine bool) {
+		if stop() {
+			st.Complete = false
+			return
+		}
+		x, res := runScenario(t, sc, prefix)
+		if mine {
+			st.Executions++
+			st.Transitions += int64(len(x.Steps))
+			visit(x, res)
+		}
+		if x.Diverged != "" {
+			return
+		}
+		pre := 0
+		for i := 0; i < len(x.Steps); i++ {
+			sp := x.Steps[i]
+			if i >= len(prefix) {
+				if len(sp.Enabled) > 1 && mine {
+					st.Nodes++
+				}
+				for alt := 1; alt < len(sp.Enabled); alt++ {
+					if pre+sp.Costs[alt] > bound {
+						continue
+					}
+					np := append(append([]int{}, x.Choices[:i]...), alt)
+					if level == 0 {
+						child++
+						if (offset+child)%nshards == shard {
+							rec(np, 1, true)
+						}
+					} else {
+						rec(np, level+1, true)
+					}
+				}
+			}
+			if sp.Preempt {
+				pre++
+			}
+		}
+	}
+	rec(nil, 0, shard == offset%nshards)
+	return st
+}
+
+func ssig(sc Scenario, clause string) string {
+	if clause == "nonconflicting-write-blocked" {
+		return vlib.JoinSig("schedule", clause, "delete||write-"+sc.Writer) // the cause does not depend on layout / range
+	}
+	emptied := sc.Range == "all" || sc.S0Pts == "one"
+	return vlib.JoinSig("schedule", clause, "delete||write-"+sc.Writer, fmt.Sprintf("delete-empties-series=%v", emptied), "layout="+sc.Layout)
+}
+
+func runSchedules(t *testing.T, c *vlib.Ctx, stop func() bool) {
+	scs := scenarios(c.Thorough())
+	c.Note("schedule_scenarios", fmt.Sprint(len(scs)))
+	for si, sc := range scs {
+		if only := os.Getenv("C17_SCEN"); only != "" && only != fmt.Sprint(si) {
+			continue
+		}
+		if stop() {
+			c.Cap("budget share of part 2 expired before all schedule scenarios were explored")
+			return
+		}
+		// preemption bound: 1 in the quick tier; thorough: 2 for the cache layout and for tsm / one point / range lo, else 1
+		bound := 1
+		if c.Thorough() && (sc.Layout == "cache" || sc.S0Pts == "one" && sc.Range == "lo") {
+			bound = 2
+		}
+		st := exploreScenario(t, sc, bound, c.Shard, c.NShards, si, stop, func(r *vrt.Result, res sresult) {
+			c.Eval(1)
+			if r.Preempts > 0 {
+				c.NontrivialN(1)
+			}
+			if r.Diverged != "" {
+				c.HarnessError(sc.String() + ": " + r.Diverged)
+				return
+			}
+			c.Outcome("schedule/" + res.outcome)
+			for _, v := range res.verdicts {
+				p := strings.SplitN(v, "|", 2)
+				if p[0] == "harness" {
+					c.HarnessError(sc.String() + ": " + p[1])
+					continue
+				}
+				cs := SCase{Scenario: sc, Choices: r.Choices, Sig: ssig(sc, p[0])}
+				for _, s := range r.Steps {
+					cs.Trace = append(cs.Trace, fmt.Sprintf("T%d %s", s.Thread, s.Label))
+				}
+				c.Violation(cs.Sig, sc.String()+": "+p[1], cs)
+				if schedDebug {
+					j, _ := json.Marshal(map[string]any{"case": SCase{Scenario: sc, Choices: r.Choices, Sig: cs.Sig}})
+					fmt.Fprintf(os.Stderr, "VIOLATING-CASE %s\n", j)
+				}
+			}
+			if c.WantSample() && r.Preempts > 0 {
+				c.Sample(map[string]any{"scenario": sc.String(), "schedule": r.Choices, "outcome": res.outcome})
+			}
+		})
+		if !st.Complete {
+			c.Cap("budget share of part 2 expired inside schedule scenario " + sc.String())
+		}
+		c.StateN(st.Nodes)
+		c.Transition(st.Transitions)
+		c.Trace(st.Executions)
+	}
+}
+
+func replaySchedule(t *testing.T, raw json.RawMessage) (bool, string) {
+	var cs SCase
+	if err := json.Unmarshal(raw, &cs); err != nil {
+		return false, err.Error()
+	}
+	r, res := runScenario(t, cs.Scenario, cs.Choices)
+	if r.Diverged != "" {
+		return false, "diverged: " + r.Diverged
+	}
+	var v []string
+	bad := false
+	for _, x := range res.verdicts {
+		p := strings.SplitN(x, "|", 2)
+		if p[0] == "harness" {
+			continue
+		}
+		if cs.Sig == "" || ssig(cs.Scenario, p[0]) == cs.Sig {
+			bad = true
+			v = append(v, "VIOLATED "+x)
+		} else {
+			v = append(v, "(other class) "+x)
+		}
+	}
+	return bad, cs.Scenario.String() + "\n" + strings.Join(v, "\n") + "\noutcome=" + res.outcome
+}
+
+var rule = "PART 1 (histories; real storage.Engine.DeleteBucketRangePredicate → tsdb.Store.DeleteSeriesWithPredicate as POST /api/v2/delete calls it, mini fixture). " +
+	"Series pool m0{a=x}, m0{a=y,b=z}, m1{a=x,b=z}, m1{a=y}; fields f0(float) f1(integer), field layout fixed per series (m0{a=x}: both fields on every slot; m0{a=y,b=z}: f0 on even, f1 on odd slots; m1{a=x,b=z}: f0; m1{a=y}: f1); 4 time slots B+10, B+1h-1 | B+1h, B+1h+10 in two 1h shard groups; layouts cache / tsm (one TSM file per shard) / mixed (even slots TSM, odd slots cache). " +
+	"Datasets: every series absent / shard A only / shard B only / both (255 sets). Deletes = ranges × predicates, complete product: ranges quick {all, [t1,t1], [t1,t2] across the boundary, [t0,t1] one shard, [t0+1,t3-1], empty [t0+1,t1-1]} + thorough {[t2,t2], [t2,t3], [t2,MaxNanoTime], inverted [t2,t1]}; predicates quick {none, _measurement=m0, a=x, b=z, m0 AND a=y, m1 AND a=x, _measurement=m1, a!=x} + thorough {a=y, m0 AND a=x, a=x AND b=z, _measurement=mz (absent), m0 AND a=q (no match), _measurement!=m0, _measurement!=m1, m1 AND a!=x}. " +
+	"Depth 1: quick = the full set (4 series in both shards) × 3 layouts + the 4 sets with 3 series in both shards and the sets [A,both,B,both], [both,B,A,A] in layout mixed = 9 datasets × 48 deletes; thorough = all 255 sets, set i in layout (cache,tsm,mixed)[i mod 3], the 15 sets whose series are all in both shards in all 3 layouts = 285 datasets × 160 deletes. " +
+	"Depth ≥2 on the full dataset: delete ; mid ; delete for every ordered pair of a reduced delete family (quick 3 ranges × 4 predicates = 12, thorough 5 × 5 = 25) × mid ∈ {nothing, rewrite all points with new values} (quick, layout mixed) + {rewrite+snapshot} (thorough, 3 layouts). After EVERY operation: ReadFilter of the whole bucket and of each shard-group range, Store.MeasurementNames / TagKeys / TagValues (with and without a WHERE filter) / SeriesCardinality, InfluxQL SHOW SERIES / SHOW MEASUREMENTS, reads.Store TagKeys / TagValues(_measurement, a, b) for the whole bucket and per shard-group range, all compared with the statement's model. evaluations = verified operations; non-trivial = deletes that remove ≥1 point. " +
+	"PART 2 (schedules; vsched, every tsdb/tsm1/tsi1 file that uses sync compiled against the modelled primitives). One shard holding s0=m0{a=x} (1 or 2 points) and s1=m0{a=y,b=z}; thread 1 = bucket delete `_measurement=m0 AND a=x` over [B,B+10] or everything (Engine.DeleteBucketRangePredicate), thread 2 = Store.WriteToShard of one point: other-series (s1 in range), match-out (s0 outside the range), match-in (s0 in range), new-match-in (new series m0{a=x,c=n} in range); layouts cache / tsm: quick 11 scenarios, thorough 28. EVERY schedule with ≤ B preemptions (B=1 quick; thorough B=2 for the 14 cache-layout scenarios and the 4 tsm scenarios with one point and range [B,B+10], B=1 for the other 10; a switch when the running thread blocks or ends is free) branching at the sync/atomic operations of Store, epochTracker, guard, Shard, tsm1.Engine, tsm1.Cache is executed; afterwards the bucket is read and SHOW SERIES / SeriesCardinality / MeasurementNames queried. Non-conflicting writes: final state = delete and write both applied, and the writer never parks in guard.Wait; conflicting writes: final state = one of the two orders (the real-time order when the calls do not overlap), and a series is listed iff it has data. states = decision nodes, transitions = scheduling steps, traces = executions."
+
+var assumptions = []string{
+	"delete range is inclusive on both ends ([min,max], as tsm1.Engine.DeleteSeriesRange documents); a delete predicate selects series by measurement and tags only (delete by field is rejected by the API)",
+	"`!=` delete predicates are only used on keys that every series of the pool carries (no three-valued cases)",
+	"a series returned by a read with an EMPTY cursor is not judged (C21); order and duplicates of listings are not judged (C42): listings are compared as sets",
+	"metadata queries restricted to one shard group's time range: only data ⇒ listed is demanded; a name whose data lives only in the other shard may or may not be listed",
+	"a write 'does not conflict' with a delete iff its point is outside the delete's time range or its series does not match the delete's predicate",
+	"part 2: sequentially consistent interleavings at the granularity of the modelled mutex/atomic operations; branching only at Store/epochTracker/guard/Shard/Engine/Cache operations (size/idle bookkeeping atomics and all other locks are passed silently when free); the writer enters at tsdb.Store.WriteToShard (what coordinator.PointsWriter calls per shard), not through the PointsWriter's goroutine + timeout timer",
+	"background compactions/retention are off (mini fixture); the level-compaction goroutine that DeleteSeriesRange starts has nothing to do with < 4 TSM files per shard",
+}
+
+const quickBudgetS, thoroughBudgetS = 55, 1300
 
 func TestCheck(t *testing.T) {
 	vlib.Main(t, &vlib.Check{
